@@ -374,8 +374,10 @@ def cli_case(chk, case_seed, stats, coq_cases, metas, force=None):
             argv.append("-r")
         recursive = "-r" in argv
         argv.append("-p" if mode == "path" else "-n")
+        rel_exe = rng.random() < 0.4        # the program named relative to the caller's working directory (with a directory part)
         for name in ("P", "Q", "S"):
-            argv += ["-ah", "%s=%s" % (name, exes[name])]
+            argv += ["-ah", "%s=%s" % (name, os.path.relpath(exes[name], root) if rel_exe else exes[name])]
+        stats["relative_executable_paths"] = stats.get("relative_executable_paths", 0) + (1 if rel_exe else 0)
         use_sort = rng.random() < 0.3
         use_filter = (not use_sort) and rng.random() < 0.15
         if use_sort:
